@@ -4,56 +4,56 @@ From Verif Require Import Base C10_Model.
 Open Scope Z_scope.
 
 Definition schema_t1 : schema :=
-  [(mk_field "ID"%string "id"%string None None None true ANone);
-   (mk_field "Name"%string "name"%string None None None false ANone);
-   (mk_field "Age"%string "age"%string None None None false ANone);
-   (mk_field "Note"%string "note"%string None None None false ANone);
-   (mk_field "CreatedAt"%string "created_at"%string None None None false ACreate);
-   (mk_field "UpdatedAt"%string "updated_at"%string None None None false AUpdate)].
+  [(mk_field "ID"%string "id"%string false None None None true ANone);
+   (mk_field "Name"%string "name"%string false None None None false ANone);
+   (mk_field "Age"%string "age"%string false None None None false ANone);
+   (mk_field "Note"%string "note"%string false None None None false ANone);
+   (mk_field "CreatedAt"%string "created_at"%string false None None None false ACreate);
+   (mk_field "UpdatedAt"%string "updated_at"%string false None None None false AUpdate)].
 
 Definition schema_t2 : schema :=
-  [(mk_field "ID"%string "id"%string None None None true ANone);
-   (mk_field "A"%string "a"%string None None (Some WCreate) false ANone);
-   (mk_field "B"%string "b"%string None None (Some WUpdate) false ANone);
-   (mk_field "C"%string "c"%string None None (Some WFalse) false ANone);
-   (mk_field "D"%string "d"%string None (Some true) None false ANone);
-   (mk_field "E"%string "e"%string None (Some false) None false ANone);
-   (mk_field "F"%string "f"%string None None None false ANone);
-   (mk_field "N"%string "n"%string None None (Some WAll) false ANone);
-   (mk_field "UpdatedAt"%string "updated_at"%string None None None false AUpdate)].
+  [(mk_field "ID"%string "id"%string false None None None true ANone);
+   (mk_field "A"%string "a"%string false None None (Some WCreate) false ANone);
+   (mk_field "B"%string "b"%string false None None (Some WUpdate) false ANone);
+   (mk_field "C"%string "c"%string false None None (Some WFalse) false ANone);
+   (mk_field "D"%string "d"%string false None (Some true) None false ANone);
+   (mk_field "E"%string "e"%string false None (Some false) None false ANone);
+   (mk_field "F"%string "f"%string false None None None false ANone);
+   (mk_field "N"%string "n"%string false None None (Some WAll) false ANone);
+   (mk_field "UpdatedAt"%string "updated_at"%string false None None None false AUpdate)].
 
 Definition schema_t3 : schema :=
-  [(mk_field "ID"%string "id"%string None None None true ANone);
-   (mk_field "G"%string "g"%string (Some DDash) None None false ANone);
-   (mk_field "H"%string "h"%string (Some DMigration) None None false ANone);
-   (mk_field "I"%string "i"%string (Some DAll) None None false ANone);
-   (mk_field "J"%string "j"%string None None None false ANone);
-   (mk_field "K"%string "k"%string None (Some true) (Some WCreate) false ANone);
-   (mk_field "CreatedAt"%string "created_at"%string None None None false ACreate);
-   (mk_field "UpdatedAt"%string "updated_at"%string None None None false AUpdate)].
+  [(mk_field "ID"%string "id"%string false None None None true ANone);
+   (mk_field "G"%string "g"%string false (Some DDash) None None false ANone);
+   (mk_field "H"%string "h"%string false (Some DMigration) None None false ANone);
+   (mk_field "I"%string "i"%string false (Some DAll) None None false ANone);
+   (mk_field "J"%string "j"%string false None None None false ANone);
+   (mk_field "K"%string "k"%string false None (Some true) (Some WCreate) false ANone);
+   (mk_field "CreatedAt"%string "created_at"%string false None None None false ACreate);
+   (mk_field "UpdatedAt"%string "updated_at"%string false None None None false AUpdate)].
 
 Definition schema_t4 : schema :=
-  [(mk_field "ID"%string "id"%string None None None true ANone);
-   (mk_field "Name"%string "name"%string None None None false ANone);
-   (mk_field "CreatedAt"%string "created_at"%string None None None false ACreate);
-   (mk_field "UpdatedAt"%string "updated_at"%string None None None false AUpdate);
-   (mk_field "Touched"%string "touched"%string None None None false AUpdate);
-   (mk_field "Made"%string "made"%string None None None false ACreate)].
+  [(mk_field "ID"%string "id"%string false None None None true ANone);
+   (mk_field "Name"%string "name"%string false None None None false ANone);
+   (mk_field "CreatedAt"%string "created_at"%string false None None None false ACreate);
+   (mk_field "UpdatedAt"%string "updated_at"%string false None None None false AUpdate);
+   (mk_field "Touched"%string "touched"%string false None None None false AUpdate);
+   (mk_field "Made"%string "made"%string false None None None false ACreate)].
 
 Definition schema_t5 : schema :=
-  [(mk_field "ID"%string "id"%string None None None true ANone);
-   (mk_field "Name"%string "name"%string None None None false ANone);
-   (mk_field "Age"%string "age"%string None None (Some WUpdate) false ANone);
-   (mk_field "CreatedAt"%string "created_at"%string None None (Some WCreate) false ACreate);
-   (mk_field "UpdatedAt"%string "updated_at"%string None None (Some WCreate) false AUpdate);
-   (mk_field "Seen"%string "seen"%string None (Some true) None false AUpdate)].
+  [(mk_field "ID"%string "id"%string false None None None true ANone);
+   (mk_field "Name"%string "name"%string false None None None false ANone);
+   (mk_field "Age"%string "age"%string false None None (Some WUpdate) false ANone);
+   (mk_field "CreatedAt"%string "created_at"%string false None None (Some WCreate) false ACreate);
+   (mk_field "UpdatedAt"%string "updated_at"%string false None None (Some WCreate) false AUpdate);
+   (mk_field "Seen"%string "seen"%string false None (Some true) None false AUpdate)].
 
 Definition schema_t6 : schema :=
-  [(mk_field "ID"%string "id"%string None None None true ANone);
-   (mk_field "FullName"%string "full_nm"%string None None None false ANone);
-   (mk_field "Age"%string "years"%string None None (Some WUpdate) false ANone);
-   (mk_field "Nick"%string "nick"%string None None (Some WCreate) false ANone);
-   (mk_field "Zip"%string "zip"%string None None (Some WCreateUpdate) false ANone);
-   (mk_field "UpdatedAt"%string "updated_at"%string None None None false AUpdate)].
+  [(mk_field "ID"%string "id"%string false None None None true ANone);
+   (mk_field "FullName"%string "full_nm"%string true None None None false ANone);
+   (mk_field "Age"%string "years"%string true None None (Some WUpdate) false ANone);
+   (mk_field "Nick"%string "nick"%string true None None (Some WCreate) false ANone);
+   (mk_field "Zip"%string "zip"%string false None None (Some WCreateUpdate) false ANone);
+   (mk_field "UpdatedAt"%string "updated_at"%string false None None None false AUpdate)].
 
 Definition harness_schemas : list schema := [schema_t1; schema_t2; schema_t3; schema_t4; schema_t5; schema_t6].
